@@ -27,7 +27,8 @@ def read_back(ctx, text):
         env[p] = Const(False)
     eng = Engine(ctx, BULK, fn, env=env, exceptions=True)
     leaves = eng.run()
-    if len(leaves) != 1 or leaves[0].state.facts:
+    if not leaves or any((lf.kind, lf.value if lf.kind == "return" else None) != (leaves[0].kind, leaves[0].value if leaves[0].kind == "return" else None)
+                         for lf in leaves):
         raise Unsupported(f"nas_sscanf({text!r}): {len(leaves)} paths, undecided {[f[0] for lf in leaves for f in lf.state.facts][:3]}")
     lf = leaves[0]
     if lf.kind != "return":
@@ -47,6 +48,9 @@ def _check(ctx, what, samples, where):
             got = read_back(ctx, text)
         except Unsupported as e:
             ctx.error(f"nas_sscanf on {what}: not modelled", where, str(e))
+            return
+        if not (is_num(got) or isinstance(got, (Lit, Const)) or (isinstance(got, tuple) and got[0] == "raises")):
+            ctx.error(f"nas_sscanf on {what}: result for {text!r} is not concrete", where, repr(got)[:200])
             return
         if not _same(got, want):
             bad.append({"text": text, "denotes": float(want), "nas_sscanf returns": (float(got) if is_num(got) else repr(got))})
@@ -95,11 +99,11 @@ def r4_parse_back(ctx):
             _check(ctx, f"the fixed-notation fields of {q} ({'negative' if neg else 'positive'} values)", samples, nfn)
     # scientific notation: per helper, sign, exponent sign and exponent length
     for q, W, extra in (("_format_scientific8", 8, ""), ("_format_scientific16", 16, ""), ("format_double16", 16, "D")):
-        for label, iv, neg, small in SCI_INTERVALS:
-            for e in (1, 2, 3):
+        for label, iv, neg, small, expzero in SCI_INTERVALS:
+            for e in ((1,) if expzero else (1, 2, 3)):
                 run = SciRun(ctx, q, label, iv, neg, small, e)
                 rets = [lf for lf in run.leaves if lf.kind == "return"]
-                if len(rets) != 1:
+                if not rets or any(lf.value != rets[0].value for lf in rets):
                     continue            # C12-R2 reports it
                 pcs = run.pieces(rets[0].value)
                 ps = run.mantissa_precision(rets[0].value)
@@ -110,8 +114,9 @@ def r4_parse_back(ctx):
                 samples = []
                 for frac in (DIG[1:1 + P], ""):
                     mant = ("-" if neg else "") + "1." + frac
-                    text = (mant + lit + EXPD[e]).rjust(W)
-                    want = Fraction(float(mant + "0e" + ("-" if small else "+") + EXPD[e]))
+                    ed = "0" if expzero else EXPD[e]
+                    text = (mant + lit + ed).rjust(W)
+                    want = Fraction(float(mant + "0e" + ("-" if small else "+") + ed))
                     samples.append((text, want))
                 _check(ctx, f"the {q} field ({label}, {e}-digit exponent)", samples, nfn)
         z = SciRun(ctx, q, "zero", Interval(Fraction(0), True, Fraction(0), True), False, True, 1)
